@@ -30,6 +30,11 @@ os.makedirs(os.path.dirname(out_path), exist_ok=True)
 
 def props_for(name):
     own = name.split("-")[0]
+    try:
+        meta = json.load(open(os.path.join(args.dir, name, "meta.json")))
+        own = meta.get("breaks_property") or meta.get("property") or own
+    except Exception:
+        pass
     if args.props == "own":
         return [own] if own in CHECKS else []
     if args.props == "all":
